@@ -49,6 +49,11 @@ def stiff_configs(states):
     for k in range(len(states) + 1):
         for sub in itertools.combinations(states, k):
             cfgs.append(("{" + ",".join(sub) + "}", list(sub)))
+    # every subset together with one and with two names that are not states (so that the *number* of names can coincide with the number of states)
+    for k in range(len(states) + 1):
+        for sub in itertools.combinations(states, k):
+            cfgs.append(("{" + ",".join(sub) + "}+1foreign", list(sub) + ["not_a_state"]))
+            cfgs.append(("{" + ",".join(sub) + "}+2foreign", ["p"] + list(sub) + ["i"]))
     cfgs.append(("{x}+foreign", [states[0], "not_a_state"]))
     cfgs.append(("foreign-only", ["i", "p", "dx_dt"]))
     cfgs.append(("dups", [states[0], states[0], states[-1]]))
@@ -86,6 +91,8 @@ def run_item(item):
     backends = ("numpy", "c") if tier == "quick" else ("numpy", "c", "jax")
     for delta in (1e-8, 0.5):
         for cname, stiff in stiff_configs(ref.states):
+            if tier == "quick" and "foreign" in cname and cname not in ("{x}+foreign", "foreign-only") and key.split("|")[1] not in ("affine[p,1]", "gate", "x**2"):
+                continue  # quick: the subset x foreign-name-count product only for three x-rates
             res["states"] += 1
             S = set(stiff or ()) & set(ref.states)
 
